@@ -70,8 +70,13 @@ def make_header(rng, ncomments, nl):
         parts.append(rng.choice((nl, b' ', b'\t', nl + nl, b'  ' + nl)))
     for k in range(ncomments):
         kind = rng.choice(KINDS)
+        com = make_comment(rng, kind)
+        if k and rng.random() < 0.12:
+            # the same comment again (two ruler lines, a repeated glyph line): equal text, another comment
+            kind, com = kinds[-1], prev_com
+        prev_com = com
         kinds.append(kind)
-        parts.append(rng.choice((b'', b'', b' ', b'\t')) + make_comment(rng, kind))
+        parts.append(rng.choice((b'', b'', b' ', b'\t')) + com)
         last = k == ncomments - 1
         if kind in ('dash', 'slash'):
             parts.append(nl)
